@@ -320,7 +320,7 @@ def rust_val(U, t, v, cx):
     if k == "ph":
         return "PhantomData"
     if k == "rfull":
-        return ".."
+        return "(..)"
     if k == "string":
         return "String::from_utf8(vec![%s]).unwrap()" % ", ".join("%du8" % b for b in v[1])
     if k == "boxstr":
